@@ -1,3 +1,286 @@
-/- Property theorems for C13 — to be filled in. -/
+/-
+  C13 — Events and the state they describe commit together.
+
+  Model: `Stab.TxnScope` (thread-local scope + recorder + one SQLite connection, event store in the
+  same database).  Generated table: `Stab.Gen.EventSites` (every recorder call of every handler with
+  its position relative to the `with …transaction(…)` blocks).
+
+  * for ALL op sequences from the initial state:
+      `sequence_strictly_increasing`, `published_subset_committed` (+ `publish_order_eq_append_order`,
+      `published_after_commit`), `abort_publishes_nothing`, `abort_appends_nothing`,
+      `crash_publishes_and_appends_nothing`, `inner_commit_defers_publication`;
+    the model takes the flag `c` = "the inner-block branch of abort_store_transaction clears the queue"
+    (generated: `Stab.Gen.TxnShape.innerAbortClearsPending`, false as shipped); the publication theorems
+    carry the hypothesis `swallowed = false` (no block committed after an inner block had rolled back,
+    i.e. the inner exception propagated); `published_subset_committed_counterexample` shows the
+    hypothesis is needed for `c = false` (the code really publishes rolled-back events then — finding
+    F24; no handler nests blocks: the harness observes a maximal scope depth of 1 on every engine run),
+    `published_subset_committed_iff_inner_abort_clears` / `…_for_source`: the unrestricted statement
+    holds iff `c = true`.
+  * `event_durable_iff_state_durable`: a flat block (`begin; appends and state writes; end`) makes
+    all of its events and all of its state writes durable and publishes the events iff it ends in
+    `commit`; ending in `abort` or `crash` leaves both logs and the subscriber untouched.
+  * `completion_event_inside_commit`, `outside_transaction_sites_reviewed`, `inside_sites_store_the_entity` over the
+    generated site table; `gen_txn_shape` over the generated shape facts of txn_scope.py / _record / transaction().
+-/
+import Stab.Lemmas.TxnScope
+import Stab.Gen.EventSites
+import Stab.Gen.TxnShape
+
 namespace Stab.Props.C13
+open Stab Stab.TxnScope
+
+/-! ## the scope model, all op sequences -/
+
+/-- **Sequence numbers of durable events are 1, 2, …: unique and strictly increasing**, whatever
+    mixture of blocks, rollbacks and crashes produced them (a rolled-back number is handed out again,
+    as SQLite does; it never appears twice among durable rows). -/
+theorem sequence_strictly_increasing (c : Bool) (ops : List Op) :
+    ((run c St.init ops).durable.map (·.seq)).Pairwise (· < ·)
+    ∧ ((run c St.init ops).durable.map (·.seq)) = List.range' 1 (run c St.init ops).durable.length := by
+  have h := seqInv_run c ops St.init seqInv_init
+  have hp := range_prefix _ _ h
+  exact ⟨by rw [hp]; exact List.pairwise_lt_range' 1, hp⟩
+
+/-- uncommitted rows continue the numbering: a joined append never collides with a durable row -/
+theorem uncommitted_sequences_follow_durable (c : Bool) (ops : List Op) :
+    ((run c St.init ops).durable ++ (run c St.init ops).uncommitted).map (·.seq)
+      = List.range' 1 ((run c St.init ops).durable.length + (run c St.init ops).uncommitted.length) := by
+  have h := seqInv_run c ops St.init seqInv_init
+  simpa [SeqInv, allEv] using h
+
+/-- **Every published event is durable, in the order in which it was appended** — the subscriber log is
+    an order-preserving sublist of the durable log — provided no block committed after an inner block
+    rolled back. -/
+theorem published_subset_committed (c : Bool) (ops : List Op) (h : (run c St.init ops).swallowed = false) :
+    (run c St.init ops).published.Sublist (run c St.init ops).durable := by
+  obtain ⟨_, hp⟩ := pubInv_run c ops St.init pubInv_init
+  obtain ⟨d1, d2, hd, hpub, _⟩ := hp h
+  rw [hd]
+  exact hpub.trans (List.sublist_append_left _ _)
+
+theorem published_mem_durable (c : Bool) (ops : List Op) (h : (run c St.init ops).swallowed = false) (e : Ev)
+    (he : e ∈ (run c St.init ops).published) : e ∈ (run c St.init ops).durable :=
+  (published_subset_committed c ops h).subset he
+
+/-- publication order = append (sequence) order: published sequences strictly increase -/
+theorem publish_order_eq_append_order (c : Bool) (ops : List Op) (h : (run c St.init ops).swallowed = false) :
+    ((run c St.init ops).published.map (·.seq)).Pairwise (· < ·) :=
+  List.Pairwise.sublist ((published_subset_committed c ops h).map _) (sequence_strictly_increasing c ops).1
+
+/-- **published only after commit**: at every moment of every run (every prefix of the op sequence) what
+    the subscriber has seen so far is already durable at that moment -/
+theorem published_after_commit (c : Bool) (ops₁ ops₂ : List Op)
+    (h : (run c St.init (ops₁ ++ ops₂)).swallowed = false) :
+    (run c St.init ops₁).published.Sublist (run c St.init ops₁).durable := by
+  apply published_subset_committed
+  cases hs : (run c St.init ops₁).swallowed with
+  | false => rfl
+  | true =>
+    rw [run_append, swallowed_run c ops₂ _ hs] at h
+    exact absurd h (by simp)
+
+/-- outside any block nothing waits for publication and nothing is uncommitted -/
+theorem nothing_pending_outside_blocks (c : Bool) (ops : List Op) (h : (run c St.init ops).depth = 0) :
+    (run c St.init ops).pending = [] ∧ (run c St.init ops).uncommitted = [] ∧ (run c St.init ops).wUncommitted = [] := by
+  obtain ⟨hz, _⟩ := pubInv_run c ops St.init pubInv_init
+  obtain ⟨a, b, c, _⟩ := hz h
+  exact ⟨a, b, c⟩
+
+/-- the hypothesis `swallowed = false` is needed for the code as shipped (`c = false`): an inner block
+    rolls back (taking the outer block's append with it — one connection), the exception is swallowed,
+    the outer block commits and the rolled-back event is published.  The real `TxnScope` does exactly
+    this (harness suite `txnscope-ops`, finding F24). -/
+theorem published_subset_committed_counterexample :
+    ¬ (∀ ops : List Op, ∀ e ∈ (run false St.init ops).published, e ∈ (run false St.init ops).durable) := by
+  intro h
+  have := h [.begin, .append 7, .begin, .abort, .commit] { seq := 1, tag := 7 } (by decide)
+  revert this
+  decide
+
+/-- if the inner-block branch of `abort_store_transaction` clears the queue, the statement holds for ALL
+    op sequences without any hypothesis -/
+theorem published_subset_committed_of_clearing (ops : List Op) :
+    (run true St.init ops).published.Sublist (run true St.init ops).durable :=
+  published_subset_committed true ops (clean_run ops St.init ⟨rfl, rfl⟩).2
+
+/-- the unrestricted statement holds **iff** the inner abort clears the queue -/
+theorem published_subset_committed_iff_inner_abort_clears (c : Bool) :
+    (∀ ops : List Op, ∀ e ∈ (run c St.init ops).published, e ∈ (run c St.init ops).durable) ↔ c = true := by
+  constructor
+  · intro h
+    cases c with
+    | true => rfl
+    | false => exact absurd h published_subset_committed_counterexample
+  · intro h; subst h
+    intro ops e he
+    exact (published_subset_committed_of_clearing ops).subset he
+
+/-- …for the source tree under check (generated flag: `false` as shipped, `true` with proposed_fixes/F24.diff) -/
+theorem published_subset_committed_for_source :
+    (∀ ops : List Op, ∀ e ∈ (run Stab.Gen.TxnShape.innerAbortClearsPending St.init ops).published,
+        e ∈ (run Stab.Gen.TxnShape.innerAbortClearsPending St.init ops).durable)
+      ↔ Stab.Gen.TxnShape.innerAbortClearsPending = true :=
+  published_subset_committed_iff_inner_abort_clears _
+
+/-- **A rollback publishes nothing** (from every state, at every depth) -/
+theorem abort_publishes_nothing (c : Bool) (s : St) : (step c s .abort).published = s.published := by
+  by_cases h0 : s.depth = 0 <;> by_cases h1 : s.depth = 1 <;> simp [step, h0, h1]
+
+/-- **A rollback makes nothing durable** and leaves nothing pending on the connection -/
+theorem abort_appends_nothing (c : Bool) (s : St) :
+    (step c s .abort).durable = s.durable ∧ (step c s .abort).wDurable = s.wDurable
+    ∧ (step c s .abort).uncommitted = [] ∧ (step c s .abort).wUncommitted = [] := by
+  by_cases h0 : s.depth = 0 <;> by_cases h1 : s.depth = 1 <;> simp [step, h0, h1]
+
+/-- the outermost rollback also empties the publication queue -/
+theorem outer_abort_drops_pending (c : Bool) (s : St) (h : s.depth = 1) :
+    (step c s .abort).pending = [] ∧ (step c s .abort).depth = 0 := by
+  simp [step, h]
+
+theorem crash_publishes_and_appends_nothing (c : Bool) (s : St) :
+    (step c s .crash).published = s.published ∧ (step c s .crash).durable = s.durable
+    ∧ (step c s .crash).wDurable = s.wDurable ∧ (step c s .crash).pending = [] ∧ (step c s .crash).depth = 0 := by
+  simp [step]
+
+/-- re-entrancy: leaving an inner block normally commits the connection but publishes nothing yet -/
+theorem inner_commit_defers_publication (c : Bool) (s : St) (h : 2 ≤ s.depth) :
+    (step c s .commit).published = s.published ∧ (step c s .commit).depth = s.depth - 1
+    ∧ (step c s .commit).pending = s.pending := by
+  have h0 : s.depth ≠ 0 := by omega
+  have h1 : s.depth ≠ 1 := by omega
+  simp [step, h0, h1]
+
+/-- an append outside any block is durable and published at once -/
+theorem append_outside_block (c : Bool) (s : St) (h : s.depth = 0) (t : Nat) :
+    (step c s (.append t)).published = s.published ++ [{ seq := nextSeq s, tag := t }]
+    ∧ (step c s (.append t)).durable = s.durable ++ s.uncommitted ++ [{ seq := nextSeq s, tag := t }] := by
+  simp [step, h]
+
+/-- an append inside a block is neither durable nor published by itself -/
+theorem append_inside_block (c : Bool) (s : St) (h : s.depth ≠ 0) (t : Nat) :
+    (step c s (.append t)).published = s.published ∧ (step c s (.append t)).durable = s.durable := by
+  simp [step, h]
+
+/-- **Events and state writes of one block share one fate.**  From a state outside any block with a
+    clean connection (every reachable depth-0 state: `nothing_pending_outside_blocks`), a flat block
+    `begin; body; END` with `body` made of event appends and state writes:
+    * END = commit: all events of the body become durable, all its state writes become durable, and
+      exactly these events are published, in append order;
+    * END = abort or crash: no event, no state write becomes durable and nothing is published. -/
+theorem event_durable_iff_state_durable (c : Bool) (s : St) (h0 : s.depth = 0)
+    (hclean : s.pending = [] ∧ s.uncommitted = [] ∧ s.wUncommitted = [])
+    (body : List Op) (hf : body.all Op.isFlat = true) :
+    let evs := mkEvs (nextSeq s) body
+    ((run c s (.begin :: body ++ [.commit])).durable = s.durable ++ evs
+      ∧ (run c s (.begin :: body ++ [.commit])).wDurable = s.wDurable ++ wTags body
+      ∧ (run c s (.begin :: body ++ [.commit])).published = s.published ++ evs)
+    ∧ ((run c s (.begin :: body ++ [.abort])).durable = s.durable
+      ∧ (run c s (.begin :: body ++ [.abort])).wDurable = s.wDurable
+      ∧ (run c s (.begin :: body ++ [.abort])).published = s.published)
+    ∧ ((run c s (.begin :: body ++ [.crash])).durable = s.durable
+      ∧ (run c s (.begin :: body ++ [.crash])).wDurable = s.wDurable
+      ∧ (run c s (.begin :: body ++ [.crash])).published = s.published) := by
+  obtain ⟨hp, hu, hw⟩ := hclean
+  obtain ⟨s1, hs1⟩ : ∃ s1 : St, s1 = { s with depth := 1, pending := [], tainted := false } := ⟨_, rfl⟩
+  have hb : step c s .begin = s1 := by simp [step, h0, hs1]
+  have hn : nextSeq s1 = nextSeq s := by simp [hs1, nextSeq]
+  have hd : s1.depth ≠ 0 := by simp [hs1]
+  have hrun : ∀ last : Op, run c s (.begin :: body ++ [last]) = step c (run c s1 body) last := by
+    intro last
+    simp [run, List.foldl_append, hb]
+  have hflat := run_flat c body s1 hd hf
+  rw [hn] at hflat
+  simp only [hrun, hflat]
+  refine ⟨?_, ?_, ?_⟩ <;> simp [step, hs1, hu, hw]
+
+/-! ## non-vacuity -/
+
+-- a committed block: event 7 and write 3 durable together, published after the commit
+example : (run false St.init [.begin, .write 3, .append 7, .commit]).durable = [{ seq := 1, tag := 7 }]
+    ∧ (run false St.init [.begin, .write 3, .append 7, .commit]).wDurable = [3]
+    ∧ (run false St.init [.begin, .write 3, .append 7]).published = []
+    ∧ (run false St.init [.begin, .write 3, .append 7, .commit]).published = [{ seq := 1, tag := 7 }] := by decide
+-- rollback: nothing durable, nothing published, and the sequence number is handed out again
+example : (run false St.init [.begin, .write 3, .append 7, .abort, .append 8]).durable = [{ seq := 1, tag := 8 }]
+    ∧ (run false St.init [.begin, .write 3, .append 7, .abort, .append 8]).wDurable = []
+    ∧ (run false St.init [.begin, .write 3, .append 7, .abort, .append 8]).published = [{ seq := 1, tag := 8 }] := by decide
+-- an inner exception that propagates keeps `swallowed = false`
+example : (run false St.init [.begin, .append 1, .begin, .abort, .abort, .append 2]).swallowed = false := by decide
+example : (run false St.init [.begin, .append 1, .begin, .abort, .commit]).swallowed = true := by decide
+
+/-! ## the handlers (generated table) -/
+
+open Stab.Gen.EventSites in
+/-- the two handlers whose completion events the property is about -/
+def completionModules : List String := ["handlers/complete_task.py", "handlers/complete_stage/handler.py"]
+
+open Stab.Gen.EventSites in
+/-- **Every completion-event call site of `complete_task.py` and `complete_stage/handler.py` lies
+    lexically inside a `with …transaction(…)` block that also stores the entity**
+    (`txn.store_stage` / `txn.update_workflow_status`): in these two modules every recorder call is
+    either the body of the completion helper or a call of that helper inside such a block; there is
+    at least one such call per module; moving a call out of its block falsifies this. -/
+theorem completion_event_inside_commit :
+    (sites.filter (fun s => completionModules.contains s.module)).all
+      (fun s => (s.kind == "in-helper" && s.position == "helper")
+             || (s.kind == "helper-call" && s.position == "inside" && s.stores)) = true
+    ∧ completionModules.all (fun m => sites.any (fun s => s.module == m && s.kind == "helper-call")) = true
+    ∧ completionModules.all (fun m => sites.any (fun s => s.module == m && s.kind == "in-helper")) = true
+    ∧ (sites.filter (fun s => s.kind == "helper-call")).all (fun s => completionModules.contains s.module) = true
+    ∧ (sites.filter (fun s => s.kind == "in-helper")).all (fun s => completionModules.contains s.module) = true := by
+  decide
+
+/-- (module, recorder, position) of the recorder calls that are reviewed and accepted OUTSIDE a transaction
+    block.  "after": the state is durable first; a crash in between loses the event (documented
+    best-effort, `_record` docstring).  "before": the event is durable and published first —
+    `skip_stage.py` (finding F10) and `complete_workflow.py`; a crash or a retried delivery between the
+    append and the commit leaves / repeats the event without the state change. -/
+def reviewedOutside : List (String × String × String) :=
+  [("handlers/cancel_stage.py", "record_stage_canceled", "after"),
+   ("handlers/cancel_stage.py", "record_task_completed", "after"),
+   ("handlers/complete_workflow.py", "record_workflow_completed", "before"),
+   ("handlers/complete_workflow.py", "record_workflow_canceled", "before"),
+   ("handlers/complete_workflow.py", "record_workflow_failed", "before"),
+   ("handlers/skip_stage.py", "record_stage_skipped", "before"),
+   ("handlers/start_stage/handler.py", "record_stage_started", "after"),
+   ("handlers/start_task.py", "record_task_started", "after"),
+   ("handlers/start_waiting_workflows.py", "record_workflow_started", "after"),
+   ("handlers/start_workflow.py", "record_workflow_created", "after"),
+   ("handlers/start_workflow.py", "record_workflow_started", "after")]
+
+open Stab.Gen.EventSites in
+/-- **Every recorder call that is not inside a transaction block is on the reviewed list** (a new
+    outside-transaction site, or one that moves from "after" to "before", breaks this; moving a listed
+    site INTO its transaction — proposed_fixes/F10.diff — keeps it true). -/
+theorem outside_transaction_sites_reviewed :
+    (sites.filter (fun s => s.kind == "direct" && s.position != "inside")).all
+      (fun s => reviewedOutside.contains (s.module, s.callee, s.position)) = true := by
+  decide
+
+open Stab.Gen.EventSites in
+/-- a direct recorder call inside a transaction block sits in a block that also stores the entity -/
+theorem inside_sites_store_the_entity :
+    (sites.filter (fun s => s.position == "inside")).all (fun s => s.stores) = true := by
+  decide
+
+/-- the scope functions, `_record` and `transaction()` still have the shape the model transcribes
+    (begin re-entrant; commit: decrement, return while inner, unbind, publish the queue in order; abort:
+    decrement, return while inner, unbind, never publish; `_record`: queue inside a scope, publish
+    directly only outside, join the scope's connection; `transaction()`: begin → yield → commit inside the
+    try → rollback + abort in the handler → commit_scope after the try) -/
+theorem gen_txn_shape :
+    Stab.Gen.TxnShape.innerAbortReturns = true ∧ Stab.Gen.TxnShape.abortNeverPublishes = true
+    ∧ Stab.Gen.TxnShape.abortUnbinds = true ∧ Stab.Gen.TxnShape.abortDecrements = true
+    ∧ Stab.Gen.TxnShape.innerCommitReturnsWithoutPublishing = true ∧ Stab.Gen.TxnShape.commitUnbinds = true
+    ∧ Stab.Gen.TxnShape.commitDecrements = true ∧ Stab.Gen.TxnShape.commitPublishesPendingInOrder = true
+    ∧ Stab.Gen.TxnShape.beginReentrant = true ∧ Stab.Gen.TxnShape.recordQueuesInScope = true
+    ∧ Stab.Gen.TxnShape.recordPublishesDirectlyOnlyOutsideScope = true
+    ∧ Stab.Gen.TxnShape.recordJoinsScopeConnection = true
+    ∧ Stab.Gen.TxnShape.transactionOrder
+        = ["begin_store_transaction", "yield", "try:conn.commit", "except Exception:conn.rollback",
+           "except Exception:txn.rollback_versions", "except Exception:abort_store_transaction",
+           "except Exception:raise", "commit_store_transaction"] := by
+  decide
+
 end Stab.Props.C13
